@@ -3,6 +3,7 @@
 package c12
 
 import (
+	"math/big"
 	"fmt"
 	"math"
 	"math/rand"
@@ -93,6 +94,22 @@ func structure(c *mon.Case) {
 	if c.I < 3 {
 		c.Sample(det())
 	}
+	// (a') the finest cells, where the conversion error of a point is largest relative to the cell: points on the
+	// vertices and edges of level-28..30 cells, nudged by ulps, against their leaf cell and its ancestors
+	for k := 0; k < 40; k++ {
+		fc := s2.CellFromCellID(gen.RandCellID(r, 28+r.Intn(3)))
+		j := r.Intn(4)
+		t := []float64{0, 0, r.Float64()}[r.Intn(3)]
+		p := gen.NudgeUlps(r, s2.Point{Vector: fc.Vertex(j).Mul(1 - t).Add(fc.Vertex((j + 1) % 4).Mul(t)).Normalize()}, r.Intn(4))
+		leaf := s2.CellFromPoint(p).ID()
+		c.Count("contains.fine_boundary_points", 1)
+		for _, lv := range []int{30, 29, 28, r.Intn(28)} {
+			if !s2.CellFromCellID(leaf.Parent(lv)).ContainsPoint(p) {
+				c.Violation("ContainsPoint/misses-point-of-its-leaf-range/wrong-answer", fmt.Sprintf("the level-%d ancestor of the point's own leaf cell does not contain the point %s", lv, gen.Hex(p)), map[string]any{"point": gen.Hex(p), "leaf": leaf.ToToken(), "level": lv})
+				break
+			}
+		}
+	}
 	// (a) every point whose leaf lies in the id range is contained
 	for k := 0; k < 6; k++ {
 		var p s2.Point
@@ -156,6 +173,13 @@ func trueDistToBoundary(c s2.Cell, p s2.Point) float64 {
 		best = math.Min(best, d)
 	}
 	return best
+}
+
+func boolf(b bool) float64 {
+	if b {
+		return 1
+	}
+	return 0
 }
 
 func tol(d float64) float64 {
@@ -411,6 +435,25 @@ func cellTarget(c *mon.Case) {
 	mx := float64(cell.MaxDistanceToCell(other))
 	if mx < 0 || mx > 4 {
 		c.Violation("MaxDistanceToCell/invalid/wrong-answer", fmt.Sprintf("MaxDistanceToCell=%v", mx), det())
+	}
+	// ... and it is attained: for cells that are nowhere near antipodal the farthest pair is a vertex of one cell
+	// and a boundary point of the other (the farthest point of an edge from v is the nearest one to -v)
+	if mx < 3 && cell.Level() >= 2 && other.Level() >= 2 {
+		trueMax := 0.0
+		four := new(big.Float).SetPrec(ref.Prec).SetInt64(4)
+		for _, pr := range [][2]s2.Cell{{cell, other}, {other, cell}} {
+			for i := 0; i < 4; i++ {
+				nv := hp(s2.Point{Vector: pr[0].Vertex(i).Mul(-1)})
+				for j := 0; j < 4; j++ {
+					dm := ref.DistChord2ToSegment(nv, hp(pr[1].Vertex(j)), hp(pr[1].Vertex((j+1)%4)))
+					trueMax = math.Max(trueMax, ref.Fl(new(big.Float).SetPrec(ref.Prec).Sub(four, dm))) // subtracted with 320 bits
+				}
+			}
+		}
+		c.Count("maxdist.cell.attained_checked", 1)
+		if mx > trueMax+tol(trueMax) {
+			c.Violation("MaxDistanceToCell/not-attained/"+mon.Severity(mx-trueMax), fmt.Sprintf("MaxDistanceToCell=%.17g (squared chord), but no two points of the cells are farther apart than %.17g", mx, trueMax), det())
+		}
 	}
 	for _, s := range samples(r, cell)[:3] {
 		for _, t := range samples(r, other)[:3] {
